@@ -50,6 +50,34 @@ fn main() {
                 for_flavours!(f, F, { seq::run_random::<F>(&mut rep, &cfg, &mut rng) });
             }
         }
+        "search" => {
+            let bounds: Vec<(usize, usize)> = args
+                .str("bounds", "3:3")
+                .split(',')
+                .filter_map(|b| {
+                    let mut it = b.split(':');
+                    Some((it.next()?.parse().ok()?, it.next()?.parse().ok()?))
+                })
+                .collect();
+            let sel = if prop == "C08" { "directed" } else { "all" };
+            let nfl = if prop == "C08" { 2 } else { 4 };
+            let rc = search::SearchCfgRun {
+                prop: prop.clone(),
+                bounds,
+                random_graphs: args.num("random", 40) / nshards / nfl + 1,
+                shard,
+                nshards,
+                seed,
+                stride: 1,
+            };
+            for_flavours!(sel, F, {
+                search::run_enumeration::<F>(&rc, &mut rep);
+                search::run_random::<F>(&rc, &mut rep, &mut rng);
+                if prop == "C06" && shard == 0 {
+                    search::eval_cmp::<F>(&mut rep);
+                }
+            });
+        }
         "replay" => {
             let path = args.str("file", "");
             let txt = std::fs::read_to_string(&path).expect("cannot read replay file");
@@ -60,6 +88,9 @@ fn main() {
             match r["kind"].as_str().unwrap_or("") {
                 "seq" | "seq_history" => {
                     for_flavours!(fl.as_str(), F, { reproduced |= seq::replay::<F>(r) });
+                }
+                "search" | "cmp" => {
+                    for_flavours!(fl.as_str(), F, { reproduced |= search::replay::<F>(r) });
                 }
                 k => println!("replay kind {} not supported by this binary", k),
             }
